@@ -562,6 +562,24 @@ def gen_c17(tier, rng):
                 case.schedule = sched
                 runs.append({"fe": fe, "obs": obs_of(run_case(case))})
             rel.append({"id": "m%d_%d" % (j, ign), "mode": "interchange", "kind": kind, "runs": runs, "reqs": [[u, t, list(p)] for u, t, p in reqs]})
+    # directed: two peers / connections; the first repeats a byte-identical read (same transaction id) after the second has written the
+    # cell it reads: every front-end executes every request it receives, so the second answer shows the new value everywhere
+    for j in range(6 if tier == "quick" else 60):
+        cfg = {"single": 1, "hosted": [1], "broadcast": 0, "ignore": 0}
+        units = make_units(cfg)
+        a = rng.choice([0, 3, 17])
+        tidr = rng.randint(1, 65535)
+        rd = build_frames("tcp", [(1, tidr, dm.pdu_read(3, a, 2))])[0]
+        wr = build_frames("tcp", [(1, rng.randint(1, 65535), dm.pdu_w1(6, a, rng.randint(1, 65535)))])[0]
+        runs = []
+        for fe in D.STREAM_FES + D.DGRAM_FES:
+            case = Case("x", "strict", fe, "tcp", cfg, copy.deepcopy(units))
+            case.add_conn([rd, rd, rd])
+            case.add_conn([wr])
+            n1, n2 = len(rd["bytes"]), len(wr["bytes"])
+            case.schedule = [(1, n1), (1, n1), (2, n2), (1, n1)]
+            runs.append({"fe": fe, "obs": obs_of(run_case(case))})
+        rel.append({"id": "p%d" % j, "mode": "interchange", "kind": "tcp", "runs": runs, "reqs": []})
     # isolation: 2-3 connections interleaved (random chunk boundaries) vs the same connection alone on the same store history
     m = 100 if tier == "quick" else 1500
     for k in range(m):
